@@ -342,7 +342,9 @@ func ruleAddVar(c *Ctx, r *Repo) {
 	okElse := false
 	if eb, ok := ifs.Else.(*ast.BlockStmt); ok {
 		fca := newFuncCanon(info, fd)
-		isOwn := func(s string) bool { return strings.HasPrefix(s, "ARG1.Type<") && strings.HasSuffix(s, ".Type>()") && strings.Count(s, "<") == 1 }
+		isOwn := func(s string) bool {
+			return strings.HasPrefix(s, "ARG1.Type<") && strings.HasSuffix(s, ".Type>()") && strings.Count(s, "<") == 1
+		}
 		popOK, typOK := false, false
 		ast.Inspect(eb, func(n ast.Node) bool {
 			switch x := n.(type) {
